@@ -98,6 +98,75 @@ def run(check, repo: Repo) -> None:
                    f"{VAL}:validate_vector_data", f"{VAL}:validate_vector_data_for_inference",
                    f"{VAL}:validate_fields", f"{VAL}:validate_vector_units")
 
+    # ---- R11 no derived per-instance cache survives a schema change ------------------------------
+    # The vector's state is (_shape, _fields, _units, _data, _metadata, _name).  Any OTHER attribute that a method fills in (a memo of handles, of
+    # column indices, …) whose entries are computed from the field list must be dropped by every method that re-binds the field list.
+    CORE = {"_shape", "_fields", "_units", "_data", "_metadata", "_name", "_num_fields"}
+    fills: dict[str, list] = {}
+    for mname_, f_ in methods.items():
+        if mname_ == "__init__":
+            continue
+        for x in ast.walk(f_):
+            tgt = None
+            if isinstance(x, (ast.Assign, ast.AugAssign)):
+                for t_ in (x.targets if isinstance(x, ast.Assign) else [x.target]):
+                    for tt in ([t_] + ([] if not isinstance(x.value, ast.Assign) else [])):
+                        if isinstance(tt, ast.Subscript) and isinstance(tt.value, ast.Attribute) and dotted(tt.value.value) == "self":
+                            tgt = (tt.value.attr, x.value, x)
+            if isinstance(x, ast.NamedExpr):
+                pass
+            if isinstance(x, ast.Call) and isinstance(x.func, ast.Attribute) and x.func.attr in ("setdefault", "append", "add", "update") \
+                    and isinstance(x.func.value, ast.Attribute) and dotted(x.func.value.value) == "self":
+                tgt = (x.func.value.attr, x.args[-1] if x.args else x, x)
+            if tgt and tgt[0] not in CORE:
+                fills.setdefault(tgt[0], []).append((mname_, f_, tgt[1], tgt[2]))
+    # chained assignment `view = self._cache[k] = expr`
+    for mname_, f_ in methods.items():
+        for x in ast.walk(f_):
+            if isinstance(x, ast.Assign) and len(x.targets) > 1:
+                for t_ in x.targets:
+                    if isinstance(t_, ast.Subscript) and isinstance(t_.value, ast.Attribute) and dotted(t_.value.value) == "self" and t_.value.attr not in CORE:
+                        if not any(e[3] is x for e in fills.get(t_.value.attr, [])):
+                            fills.setdefault(t_.value.attr, []).append((mname_, f_, x.value, x))
+    schema_writers = [(mname_, f_) for mname_, f_ in methods.items() if mname_ != "__init__" and
+                      any(isinstance(x, ast.Assign) and any(dotted(t_) == "self._fields" for t_ in x.targets) for x in ast.walk(f_))]
+    check.floor("methods that re-bind the field list", len(schema_writers), 3)
+    if not fills:
+        check.holds("C11-R11", "Vector: no per-instance cache besides the declared state (nothing can go stale across add_fields / remove_fields)", f"state = {sorted(CORE)}", mod.line(vcls))
+    for attr_, sites in fills.items():
+        mname_, f_, val_, st_ = sites[0]
+        # does the cached entry depend on the field list (directly or through locals)?
+        dep, seen_, stack_ = False, set(), [val_]
+        while stack_ and not dep:
+            e_ = stack_.pop()
+            for y in ast.walk(e_):
+                if isinstance(y, ast.Attribute) and y.attr in ("_fields", "fields") and dotted(y.value) == "self":
+                    dep = True
+                elif isinstance(y, ast.Call) and isinstance(y.func, ast.Name) and repo.has(f"{VEC}:{y.func.id}") and any(dotted(a_) == "self" for a_ in y.args):
+                    # an object of a sibling class built from this vector: does its constructor read the field list?
+                    try:
+                        _m2, c2 = repo.cls(f"{VEC}:{y.func.id}")
+                    except AnalysisError:
+                        c2 = None
+                    i2 = next((g for g in (c2.body if c2 is not None else []) if isinstance(g, ast.FunctionDef) and g.name == "__init__"), None)
+                    if i2 is not None and any(isinstance(z, ast.Attribute) and z.attr in ("_fields", "fields") for z in ast.walk(i2)):
+                        dep = True
+                elif isinstance(y, ast.Name) and y.id not in seen_:
+                    seen_.add(y.id)
+                    stack_ += [d for d in definitions(f_, y.id) if isinstance(d, ast.AST)]
+        if not dep:
+            raise AnalysisError(f"Vector.{mname_}: fills `self.{attr_}` with entries whose dependence on the field list is not recognised")
+        from ..core.cfg import assigned_on_every_path
+        stale = []
+        for wn, wf in schema_writers:
+            every, _via, _c = assigned_on_every_path(wf, lambda t, a=attr_: dotted(t) == f"self.{a}")
+            cleared = any(isinstance(c, ast.Call) and isinstance(c.func, ast.Attribute) and c.func.attr == "clear" and dotted(c.func.value) == f"self.{attr_}" for c in ast.walk(wf))
+            if not (every or cleared):
+                stale.append(wn + ("@setter" if any(isinstance(d_, ast.Attribute) and d_.attr == "setter" for d_ in wf.decorator_list) else ""))
+        check.decide(not stale, "C11-R11", f"Vector: the cache `self.{attr_}` (filled in {mname_}) is dropped by every method that re-binds the field list", "", mod.line(st_), definite=True,
+                     fail_detail=f"`{unparse(st_)[:60]}` memoises entries computed from the field list, but {stale} re-bind `self._fields` without resetting `self.{attr_}`: after "
+                                 f"add_fields / remove_fields a handle obtained earlier (or the cached one returned again) addresses another field's column")
+
     # ---- R1 column-count guard on every cell store -------------------------------------------
     n_cell = 0
     for mname in ("set_data", "__setitem__"):
